@@ -80,7 +80,17 @@ def manifest():
 
 NOT_CLAIMED = {}
 
-HOOK_COMMITS = ["6385440"]
+def _hook_commits():
+    import subprocess
+    try:
+        out = subprocess.run(["git", "-C", "/repo", "log", "--format=%h %s", "--grep=^verif hooks:"],
+                             stdout=subprocess.PIPE, text=True).stdout
+        return [l.split()[0] for l in out.splitlines() if l.strip()][::-1]
+    except Exception:
+        return []
+
+
+HOOK_COMMITS = _hook_commits()
 
 
 def merge_findings():
